@@ -125,6 +125,7 @@ class SWorldMonitor:
         self.blocked = False
         self.all_fc = True
         self.refused = {}      # sid -> why it was refused (closing / revision / method)
+        self.rwin = {}         # sid -> bytes left of the window the server advertised for this stream (revision one)
         self.sent = {}         # sid -> [complete messages sent by the raw client, bytes of current, size of current]
 
     def feed(self, op, obs_line):
@@ -173,6 +174,25 @@ class SWorldMonitor:
             self.blocked = True
         if self.blocked:
             return v       # revision zero hand-off: the loop is blocked, frames are not being processed (D10)
+        # ---- C06: the receiver enforces the window IT advertised (64 KiB), per stream ----
+        for fsid, f in o["F"]:
+            if f.startswith("wu:") and fsid in self.rwin:
+                self.rwin[fsid] += int(f.split(":")[1])
+        if op.startswith("s.frame") and kind in ("msg", "more") and sid in self.table and sid in self.rwin:
+            n = int(k["len"])
+            closed8 = any(s_ == sid and f.startswith("close:8") for s_, f in o["F"])
+            if n > self.rwin[sid]:
+                if not closed8 and not tunnel_err:
+                    v.append(("C06", "overrun-accepted", f"stream {sid}: a frame of {n} bytes was accepted with only {self.rwin[sid]} bytes of the "
+                                                         f"advertised window left (no ResourceExhausted)"))
+                self.rwin.pop(sid, None)
+            else:
+                if closed8:
+                    v.append(("C06", "spurious-overrun", f"stream {sid}: failed with ResourceExhausted on a frame of {n} bytes although "
+                                                         f"{self.rwin[sid]} bytes of the advertised window were left"))
+                    self.rwin.pop(sid, None)
+                else:
+                    self.rwin[sid] -= n
         if op.startswith("s.frame") and kind in ("msg", "more") and sid in self.table:
             st_ = self.sent.setdefault(sid, [0, 0, None])
             if kind == "msg":
@@ -221,6 +241,8 @@ class SWorldMonitor:
                     else:
                         self.table.add(sid)
                         self.meta[sid] = {"accepted": True, "shape": shape, "msgs": 0}
+                        if rev == 1:
+                            self.rwin[sid] = 65536
                         if shape != "U" and f"entered {sid} stream" not in ev:
                             v.append(("C08", "handler-not-invoked", f"accepted stream {sid} ({shape}): handler not entered"))
                     if self.last is not None and o["L"] is not None and o["L"] != self.last:
@@ -497,6 +519,11 @@ class CWorldMonitor:
                     r["msgs"] += 1
                     if r["shape"] in ("U", "CS") and r["msgs"] > 1:
                         v.append(("C16", "second-response-delivered", f"stream {dsid} ({r['shape']}): caller obtained response #{r['msgs']}"))
+                    # a call with a single response returns that response only once the RPC is known to have ended OK:
+                    # a message handed out with a nil error IS the OK outcome for such a call (CloseAndRecv / Invoke)
+                    if r["shape"] in ("U", "CS") and r.get("by_close") and r["close"][0] != 0:
+                        v.append(("C02", "ok-result-for-failed-rpc", f"stream {dsid} ({r['shape']}): RecvMsg returned the response with a nil error "
+                                                                     f"although the peer closed the RPC with code {r['close'][0]}: the status is lost"))
                     if r["msgs"] > r["complete"]:
                         v.append(("C01", "fabricated-response", f"stream {dsid}: caller obtained {r['msgs']} responses, peer completed {r['complete']}"))
                     if "CORRUPT" in res or "mixed" in res:
